@@ -7,4 +7,12 @@ def run(prop, tier, seed_, replay=None):
         if replay:
             return checks.replay(prop, replay)
         return checks.core_check(prop, tier, seed_)
+    from . import obscore
+
+    if replay:
+        return obscore.replay_record(prop, replay)
+    if prop == "C06":
+        from . import c06
+
+        return c06.run(tier, seed_)
     raise SystemExit(f"unknown property {prop}")
